@@ -17,6 +17,7 @@ fn main() {
             }
         }
         "layers" => h::eng_layers::main(rest),
+        "layers-trace" => h::eng_layers::main_trace(rest),
         "writer" => h::eng_writer::main(rest),
         "repair" => h::eng_repair::main(rest),
         "reader" => h::eng_reader::main(rest),
